@@ -212,7 +212,7 @@ def run(ctx):
 
     def tla_rec(o):
         return "[" + ", ".join(f"{k} |-> {'TRUE' if v else 'FALSE'}" for k, v in o.items()) + "]"
-    mod = os.path.join(core.SPEC, "MC_PipelineEmit.tla")
+    mod = os.path.join(ctx.work, "MC_PipelineEmit.tla")
     open(mod, "w").write(
         "---- MODULE MC_PipelineEmit ----\n(* generated at run time by vlib/checks/c12.py: emits the fault table *)\n"
         "EXTENDS Pipeline, Json\n"
@@ -223,7 +223,7 @@ def run(ctx):
     open(cfg, "w").write("SPECIFICATION Spec\nCONSTANTS\n  OptionSets <- ReplayOptionSets\n  InitialFs = {\"absent\", \"old\"}\n"
                          "  FaultStages <- AllFaults\nINVARIANT EmitInv\nINVARIANT FailureLeavesOutputUntouched\n")
     try:
-        r = core.run_tlc("MC_PipelineEmit", cfg, ctx.work, workers=4, timeout=1200)
+        r = core.run_tlc(mod, cfg, ctx.work, workers=4, timeout=1200)
     finally:
         os.unlink(mod)
     core.need_ok(r, "MC_PipelineEmit")
